@@ -200,4 +200,42 @@ def step (e : Engine) : Op → Engine × Res
 def runFrom (e : Engine) (ops : List Op) : Engine := ops.foldl (fun e op => (step e op).1) e
 def run (ops : List Op) : Engine := runFrom init ops
 
+/-! ### rule actions during `fire_all`, and `reset_with_deffacts`
+
+`IncrementalEngine::process_action_results` handles each `ActionResult` a fired rule's action returned; every arm that touches
+facts calls the engine's own entry point (`self.retract`, `self.insert_explicit`, `self.insert_logical`), the other arms touch
+the agenda / print. The trigger side of `fire_all` (agenda, conditions, the write-back of modified fields with
+`working_memory.update`) inserts and retracts nothing. -/
+
+/-- `ActionResult` as far as facts are concerned -/
+inductive Action where
+  | retract (h : Nat)                 -- `Retract(handle)` (GRL `retract($X)`): `self.retract(handle)`, an `Err` is printed and dropped
+  | retractByType (h : Option Nat)    -- `RetractByType(t)`: `self.retract` of the first live fact of type `t` (`none`: there is none)
+  | insertFact                        -- `InsertFact`: `self.insert_explicit`
+  | insertLogical (ps : List Nat)     -- `InsertLogicalFact { premises }`: `self.insert_logical`
+  | other                             -- `Update` / `ActivateAgendaGroup` / `CallFunction` / `ScheduleRule` / `None`
+deriving Repr, DecidableEq
+
+/-- `process_action_results`, one result -/
+def Engine.processAction (e : Engine) : Action → Engine
+  | .retract h => (e.retract h).1
+  | .retractByType (some h) => (e.retract h).1
+  | .retractByType none => e
+  | .insertFact => e.insertExplicit.1
+  | .insertLogical ps => (e.insertLogical ps).1
+  | .other => e
+
+/-- the operation of a history an action result amounts to (`none`: it inserts and retracts nothing) -/
+def Action.asOp : Action → Option Op
+  | .retract h => some (.retract h)
+  | .retractByType (some h) => some (.retract h)
+  | .retractByType none => none
+  | .insertFact => some .insertExplicit
+  | .insertLogical ps => some (.insertLogical ps)
+  | .other => none
+
+/-- `reset_with_deffacts` (after the repair F-C08-reset: working memory, agenda AND the TMS start again) with `k` deffacts
+facts, each loaded through `insert` / `insert_with_template` -/
+def Engine.resetWithDeffacts (_ : Engine) (k : Nat) : Engine := runFrom init (List.replicate k .insert)
+
 end C08
